@@ -70,20 +70,21 @@ def run_rdf(ctx, bins):
     spec, cfg = "codec/RdfIso.tla", "codec/RdfIso.cfg"
     # R1: Iso (orbit form) = the definition by bijections, is an equivalence, orbit-stabiliser, shard invariance
     if thorough:
-        ctx.tlc(spec, cfg, subst=dict(NB=3, MINQ=0, MAXQ=3, SHARD=0, NSHARDS=1, EMIT="FALSE", INVS=RDF_R1), workers=4,
+        ctx.tlc(spec, cfg, subst=dict(NB=3, MINQ=0, MAXQ=3, SHARD=0, NSHARDS=1, EMIT="FALSE", INVS=RDF_R1, SHARDFROM=0), workers=4,
                 name="R1 RdfIso: all datasets <= 3 quads, 3 blank labels")
     else:
-        ctx.tlc(spec, cfg, subst=dict(NB=3, MINQ=0, MAXQ=3, SHARD=ctx.seed % 6, NSHARDS=6, EMIT="FALSE", INVS=RDF_R1), workers=4,
+        ctx.tlc(spec, cfg, subst=dict(NB=3, MINQ=0, MAXQ=3, SHARD=ctx.seed % 6, NSHARDS=6, EMIT="FALSE", INVS=RDF_R1, SHARDFROM=0), workers=4,
                 name="R1 RdfIso: datasets <= 3 quads, 3 blank labels, class shard %d/6 (by seed)" % (ctx.seed % 6))
     if thorough:
-        ctx.tlc(spec, cfg, subst=dict(NB=3, MINQ=4, MAXQ=4, SHARD=0, NSHARDS=1, EMIT="FALSE", INVS=RDF_R1), workers=4,
+        ctx.tlc(spec, cfg, subst=dict(NB=3, MINQ=4, MAXQ=4, SHARD=0, NSHARDS=1, EMIT="FALSE", INVS=RDF_R1, SHARDFROM=0), workers=4,
                 name="R1 RdfIso: all datasets with 4 quads", timeout=1500)
     # R2: every dataset with its class key
-    gens = [("<= 3 quads", dict(MINQ=1, MAXQ=3, SHARD=0, NSHARDS=1))]
     if thorough:
-        gens += [("4 quads shard %d/4" % i, dict(MINQ=4, MAXQ=4, SHARD=i, NSHARDS=4)) for i in range(4)]
+        gens = [("<= 3 quads", dict(MINQ=1, MAXQ=3, SHARD=0, NSHARDS=1, SHARDFROM=0))]
+        gens += [("4 quads shard %d/4" % i, dict(MINQ=4, MAXQ=4, SHARD=i, NSHARDS=4, SHARDFROM=0)) for i in range(4)]
     else:
-        gens.append(("4 quads shard %d/32 (by seed)" % (ctx.seed % 32), dict(MINQ=4, MAXQ=4, SHARD=ctx.seed % 32, NSHARDS=32)))
+        gens = [("all with <= 3 quads + 4 quads class shard %d/32 (by seed)" % (ctx.seed % 32),
+                 dict(MINQ=1, MAXQ=4, SHARD=ctx.seed % 32, NSHARDS=32, SHARDFROM=4))]
     for name, sub in gens:
         sub.update(NB=3, EMIT="TRUE", INVS="EmitCase")
         cases = ctx.gen(spec, cfg, subst=sub, name="R2 gen rdf datasets " + name)
